@@ -33,6 +33,10 @@ TRUSTED = ["CPython ast parser", "attrs.define: validators/converters run on con
 HIDDEN = ["_atcorenums", "_charge", "_nelec", "_spinpol"]
 PUBLIC = {"_atcorenums": "atcorenums", "_charge": "charge", "_nelec": "nelec", "_spinpol": "spinpol"}
 EXPLANATION += ' (R6) validate_shape compares every axis for which an expected size is given and skips only None (an expected size of 0 is a size).'
+# --- metadata added for batch 7
+TECHNIQUE += '; accessor evaluation on symbols and on special numbers'
+EXPLANATION += ' Added: (R7) the charge / nelec / atcorenums accessors evaluated as values: on symbols (any number) and on the numbers where a truth test or a sign slip shows (zero electrons, zero charge, a negative charge); a rounding call on symbols is an uninterpreted application, so `nelec = round(z - q)` is reported as not equal to z - q. The typestate fragment accepts tuple assignments and truth tests of fields (None is false, a set value generic).'
+# --- end metadata batch 7
 
 
 def run(ctx):
